@@ -254,7 +254,12 @@ class DeadlineRun:
                     elif kind == "fail_after":
                         cm = fail_after(delay, shield=shield)
                     elif kind == "scope":
-                        cm = CancelScope(deadline=INF if delay is None else now + delay, shield=shield)
+                        if delay is not None and len(stack) % 2:
+                            # the deadline is assigned through the property before the scope is entered
+                            cm = CancelScope(shield=shield)
+                            cm.deadline = now + delay
+                        else:
+                            cm = CancelScope(deadline=INF if delay is None else now + delay, shield=shield)
                     elif kind == "move_on_at":
                         cm = move_on_at(None if delay is None else now + delay, shield=shield)
                     else:
